@@ -1130,6 +1130,11 @@ def stream_ids(ctx, ncases):
                       "ds": {"coords": coords, "vars": [{"name": "meanDirection", "dims": dims, "shape": shape, "data": B.hexlist(wd_)},
                                                          {"name": "u", "dims": dims, "shape": shape, "data": B.hexlist(u)},
                                                          {"name": "wave_direction", "dims": dims, "shape": shape, "data": B.hexlist(wd_)}]}})
+        if rng.random() < 0.5:
+            # the caller designates one more angular variable: the name-based rule for *direction* variables
+            # still applies to the others (each argument alone is fine; this is the combination)
+            cases[-1]["ds"]["vars"].append({"name": "vessel_heading", "dims": dims, "shape": shape, "data": B.hexlist(wd_)})
+            cases[-1]["periodic_data"] = {"vessel_heading": [360.0, 360.0]}
         metas.append((tg, latg, long_, u, wd_, lats, lons))
     impl = ctx.impl("C14.py", {"cases": cases})["results"]
     lines = []
@@ -1160,18 +1165,30 @@ def stream_ids(ctx, ncases):
         if badi is not None:
             ctx.disagree("interpolate_dataset: u differs from the model at point %s: %r vs %r" % (badi, gu[badi] if badi >= 0 else None, wu[badi] if badi >= 0 else None), rep)
             continue
-        if not check_angular(ctx, rep, "interpolate_dataset wave_direction", gw, ww, vec, 360.0, 0.0, 360.0, tol_scale=1.2e-4):
-            continue
         # every *direction* variable is angular, not only the last one of the dataset
         if "meanDirection" not in df:
             ctx.oracle_fail("interpolate_dataset: meanDirection missing from the result", rep)
             continue
-        g2 = [C.unfx(v) for v in df["meanDirection"]]
-        for p_, (u1, u2) in enumerate(zip(g2, gw)):
-            if isnan(u1) != isnan(u2) or (not isnan(u1) and angdiff(u1, u2, 360.0) > 1e-6):
-                ctx.oracle_fail("interpolate_dataset: meanDirection and wave_direction hold the same angular data but come back as %r and %r "
-                                "(one of them was not interpolated along the shorter arc)" % (u1, u2), dict(rep, point_index=p_))
+        others = ["meanDirection"]
+        if c.get("periodic_data"):
+            ctx.tally("interpolate_dataset:track:caller-designated periodic_data")
+            if "vessel_heading" not in df:
+                ctx.oracle_fail("interpolate_dataset: vessel_heading missing from the result", rep)
+                continue
+            others.append("vessel_heading")
+        for other in others:
+            g2 = [C.unfx(v) for v in df[other]]
+            bad = False
+            for p_, (u1, u2) in enumerate(zip(g2, gw)):
+                if isnan(u1) != isnan(u2) or (not isnan(u1) and angdiff(u1, u2, 360.0) > 1e-6):
+                    ctx.oracle_fail("interpolate_dataset: %s and wave_direction hold the same angular data but come back as %r and %r "
+                                    "(one of them was not interpolated along the shorter arc)" % (other, u1, u2), dict(rep, point_index=p_))
+                    bad = True
+                    break
+            if bad:
                 break
+        if not check_angular(ctx, rep, "interpolate_dataset wave_direction", gw, ww, vec, 360.0, 0.0, 360.0, tol_scale=1.2e-4):
+            continue
 
 
 # ---------------------------------------------------------------------------------------------
